@@ -410,6 +410,17 @@ func modelEvents(last map[string]any) []string {
 	return out
 }
 
+// what a listener registered for every change type at once sees: store and id
+func anyType(evs []string) []string {
+	out := make([]string, 0, len(evs))
+	for _, e := range evs {
+		parts := strings.SplitN(e, ":", 4)
+		out = append(out, parts[0]+":any:"+parts[2]+":")
+	}
+	sort.Strings(out)
+	return out
+}
+
 func stripPayload(evs []string) []string {
 	out := make([]string, 0, len(evs))
 	for _, e := range evs {
@@ -506,8 +517,15 @@ func (r *Runner) Run(steps []Step) bool {
 					}
 					diffs := project.Compare(project.ModelFacts(s.Db), project.StoreFacts(project.Dump(ctx.Tx()), env.Tok))
 					if len(diffs) > 0 {
-						r.viol(at, "state-in-tx", diffOwners(diffs), fmt.Sprintf("after %s %v (inside the transaction)", s.op(), s.args()), diffs, diffSig("state", s, diffs))
-						if r.foreign(diffOwners(diffs)) {
+						owners := diffOwners(diffs)
+						if m, ok := prevDb(steps, at)["ext"].(map[string]any); ok {
+							// what a call leaves behind for an entity that has child data is also the child store's business
+							if x, ok := m[str(s.args()["id"])].(map[string]any); ok && x["none"] == nil && !strings.Contains(owners, "C15") {
+								owners += ",C15"
+							}
+						}
+						r.viol(at, "state-in-tx", owners, fmt.Sprintf("after %s %v (inside the transaction)", s.op(), s.args()), diffs, diffSig("state", s, diffs))
+						if r.foreign(owners) {
 							r.blind = true // another property's divergence: go on, looking only at what needs no model state
 							continue
 						}
@@ -625,6 +643,9 @@ func (r *Runner) Run(steps []Step) bool {
 				w := want
 				if st == "idOnly" {
 					w = stripPayload(want)
+				}
+				if st == "idAny" || st == "untypedAny" {
+					w = anyType(stripPayload(want))
 				}
 				got := obs.Log[st]
 				if strings.Join(got, " ") != strings.Join(w, " ") {
